@@ -289,11 +289,15 @@ pub fn run_c14(ctx: &Ctx) -> ! {
         "exploration",
         "the complete D-uri product (62 720 target URIs, see C13) through the private URL mapper (cfg-guarded hook verif_transport_url); result split by the string-level splitter R3 and compared component-wise: ipp->http, ipps->https, http/https kept; port = given, else 631 for both ipp and ipps; host, user-info, path (\"\" = \"/\") and query unchanged. distinct = URI index; non-trivial = accepted by http::Uri",
     );
-    rep.assume("hook verif_transport_url is a pure pass-through to ipp_uri_to_string (add-only, cfg(ipp_verif))");
+    rep.assume("hook verif_transport_url is a pure pass-through to ipp_uri_to_string (add-only, cfg(ipp_verif)); that the clients really contact the URL this function returns is observed on the wire (section transport-url-on-the-wire)");
     if let Some(p) = &ctx.replay {
         let (_, case) = vmc::report::load_replay(p);
         let mut st = Stats::new();
-        c14_one(case["index"].as_u64().unwrap_or(0), &mut st);
+        if case["wire"].as_bool() == Some(true) {
+            st = wire_child(ctx, Some(p));
+        } else {
+            c14_one(case["index"].as_u64().unwrap_or(0), &mut st);
+        }
         for v in &st.violations {
             println!("replay: class={} detail={}", v.class, v.detail);
         }
@@ -318,7 +322,37 @@ pub fn run_c14(ctx: &Ctx) -> ! {
         par.merge(p);
     }
     rep.section("parallel", par);
+    // what the clients do with that mapping: request target and Host header seen by a loopback peer for
+    // {blocking, async} x scheme {ipp, http} x host {127.0.0.1, localhost} x user-info(4) x path(7, some with '@')
+    // x query(5, some with '@') x client configuration {plain, basic_auth, custom header, Authorization header}
+    let wire = wire_child(ctx, None);
+    rep.section("transport-url-on-the-wire", wire);
     rep.finish()
+}
+
+/// the network half lives in the hnet binary (built by ./check before this runs)
+fn wire_child(ctx: &Ctx, replay: Option<&std::path::Path>) -> Stats {
+    let exe = ctx.verif_dir.join("target/release/hnet-native");
+    let mut cmd = std::process::Command::new(&exe);
+    cmd.arg("C14").arg("--tier").arg(if ctx.tier == vmc::report::Tier::Thorough { "thorough" } else { "quick" });
+    if let Some(p) = replay {
+        cmd.arg("--replay").arg(p);
+    }
+    let out = match cmd.output() {
+        Ok(o) => o,
+        Err(e) => {
+            eprintln!("MACHINERY-ERROR cannot run {:?}: {}", exe, e);
+            std::process::exit(2)
+        }
+    };
+    let text = String::from_utf8_lossy(&out.stdout).to_string();
+    match text.lines().find(|l| l.starts_with("WIRE-REPORT ")) {
+        Some(line) => Stats::from_json(&serde_json::from_str(&line["WIRE-REPORT ".len()..]).unwrap_or(Json::Null)),
+        None => {
+            eprintln!("MACHINERY-ERROR {:?} C14 produced no report: {}", exe, String::from_utf8_lossy(&out.stderr));
+            std::process::exit(2)
+        }
+    }
 }
 
 // ------------------------------------------------------------------------------------ C16
